@@ -56,6 +56,17 @@ def run(tier, seed):
         sig = classify(r["run"], r["at"])
         ck.violation(sig, "real receive window gave a verdict Layer P forbids: %s (event %d of its run)" % (json.dumps(r["event"]), r["at"]),
                      {"behaviour_index": r["run_index"], "first_rejected": {"index": r["at"], "event": r["event"]}, "run": r["run"]})
+    # 3b. end to end: the secure-session behaviours again, as encrypted datagrams through the whole receive path of a
+    # real node (transport, session lookup, decryption, receive window, exchange, application)
+    epath = os.path.join(wd, "trace_e2e.ndjson")
+    e2e = vlib.harness(["c04e2e", "--behaviours", bpath, "--out", epath])
+    st2, nr2, rej2 = vlib.validate_runs("C04", "DedupTrace.tla", "DedupTrace.cfg", epath)
+    states += st2
+    n_runs += nr2
+    for r in rej2:
+        sig = classify(r["run"], r["at"]).replace("C04|", "C04|e2e|")
+        ck.violation(sig, "real node (end to end) gave a verdict Layer P forbids: %s (event %d of its run)" % (json.dumps(r["event"]), r["at"]),
+                     {"behaviour_index": r["run_index"], "first_rejected": {"index": r["at"], "event": r["event"]}, "run": r["run"]})
     # binding self-test: flip one verdict of the recorded trace, the validator must reject exactly there
     ev = vlib.read_ndjson(tpath)
     k = next(i for i, e in enumerate(ev) if e.get("ev") == "Recv" and i > 40)
@@ -79,6 +90,7 @@ def run(tier, seed):
         "generator": {"cfg": "GenDedup.cfg", "mode": "tlc -simulate", "behaviours": len(beh), "steps_each": 60, "by_kind": kinds,
                       "constants": "B=65536 (32-bit counters), W=16, K=16, 18 group senders"},
         "conformance": {"steps": summ["steps"], "matched_steps": summ["matched_steps"], "drift_samples": summ["drift_samples"]},
+        "end_to_end": e2e,
         "trace_validation": {"spec": "DedupTrace.tla (Layer P = DedupProp.tla)", "events": len(ev), "states": states, "rejected_runs": len(rej)},
         "binding_selftest": {"corrupted_event": k + 1, "rejected_at": r2.get("rejected_at"), "ok": True},
         "samples": [beh[0][:6], ev[1:5]],
